@@ -69,6 +69,16 @@ var Scenarios = map[string]Scenario{
 		ClientsFirst: true,
 		Continuation: []B{{u("z", "9")}},
 	},
+	// the same shape with an UPDATE as third batch: the in-memory merge is introduced with a deletion that
+	// belongs to a later batch than the snapshot being written
+	"unsafe3upd-cf": {
+		Clients:      [][]B{{{in("a", "1")}, {in("b", "1")}, {u("a", "2")}}},
+		Opts:         harness.Opts{Unsafe: true},
+		Callbacks:    true,
+		Settle:       true,
+		ClientsFirst: true,
+		Continuation: []B{{u("b", "9")}},
+	},
 	// eager merge plan: file merges and clean-ups happen between the batches
 	"merge4": {
 		Clients:      [][]B{{{in("a", "1")}, {in("b", "1")}, {u("a", "2")}, {d("b")}}},
